@@ -43,6 +43,8 @@ func genPlanSrv(t *simrt.Tape, tier string) interface{} {
 		p.Back.Capacity = []int{8, 64, 200}[t.Draw(3)]
 		p.Back.Stalls = []StallS{{AfterBytes: int64(t.Draw(160)), ForMs: []int{5100, 7000, 12000}[t.Draw(3)]}}
 	}
+	p.Conf.EarlySender = p.Conf.Full && t.Draw(4) == 0
+	p.Conf.AutoPing = p.Conf.Full && t.Draw(3) == 0
 	p.LingerS = []int{5, 70, 200}[t.Draw(3)]
 	if len(p.Back.Stalls) > 0 && p.LingerS < 70 {
 		p.LingerS = 70 // the client keeps reading long enough to see what was stuck behind the stall
